@@ -91,6 +91,12 @@ def run(ctx):
                     impl.write_files(run_.tmp, None, {"c12big.bin": big})
                     src += "*=0x%06x\n.incbin 'c12big.bin'\n.db 0x5a\n" % ({"low_rom": 0x208000, "low_rom_2": 0xA08000, "high_rom": 0xD00000}[rom])
                     s.count("with-3-record-block")
+                if rep_i == 0:
+                    # blocks made of one repeated byte (padding, NOP sleds, cleared tables), alone between two positions
+                    fb = {"low_rom": 0x218000, "low_rom_2": 0xA18000, "high_rom": 0xD10000}[rom]
+                    src += "*=0x%06x\n.db %s\n*=0x%06x\n%s*=0x%06x\n.db 1, 2\n" % (
+                        fb, ", ".join(["0xFF"] * rng.randrange(4, 40)), fb + 0x100, "nop\n" * rng.randrange(4, 20), fb + 0x200)
+                    s.count("with-uniform-blocks")
                 base = impl.assemble(src, rom, defines=defines, cwd=run_.tmp)
                 if base["status"] != "ok":
                     s.count("base-rejected")
